@@ -1,8 +1,3 @@
-pub mod token {
-use vstd::prelude::*;
-use vstd::std_specs::convert::*;
-use std::convert::TryInto;
-
 //@ item src/token.rs / const BITS_VERSION props=C20
 //@ enditem
 //@ item src/token.rs / const BITS_SUBID props=C20
@@ -179,4 +174,3 @@ pub proof fn lemma_bump_never_returns(v: int, k: nat)
     lemma_bump_closed(v, k);
 }
 //@ endregion
-} // mod token
